@@ -281,6 +281,87 @@ STALE = "C12-stale-completion-event-crashes-next-execution"
 SUBRUN_REPLAY = "C12-failure-under-extended-subrun-replayed-from-cache"
 
 
+RAISERS = ("ev.raiser", "ev.s_raiser", "ev.a_fail", "ev.busy")
+
+
+def async_corpus():
+    """cached async tasks (cache=True, check_valid="shallow": the only caching mode redun allows for them) that fail, or await a
+    call that fails; real executors (the controlled executor cannot run coroutines)"""
+    from props import _evallib as L
+    return {
+        "async-leaf": [L.a_fail(201)],
+        "async-leaf-under-sync": L.add(L.inc(L.a_fail(202)), b=1),
+        "async-ancestor": L.a_await_fail("K", 203),
+        "async-ancestor-deep": L.pair(L.a_await_fail("V", 204), 1),
+        "async-ok": L.a_twice(1),
+    }
+
+
+def run_async(ctx, G, R, name, e, sx, reply, pending, executions=3):
+    """`executions` consecutive executions on one backend (a new Scheduler object each, real thread / async executors): in EVERY
+    execution the failing body runs again, the chain from the failing call to the root is recorded FAILED, and no lookup makes a job
+    cached with an ErrorValue unless it is a same-execution hit"""
+    from props import _evallib as L
+    outs, has_unk = G.parse_outs(reply)
+    base = R.free_scheduler()
+    expr = R.clone(e)
+    known = set()
+    for k in range(1, executions + 1):
+        from redun import Scheduler
+        sched = Scheduler(config=base.config, backend=base.backend)
+        probe = Probe(sched)
+        probe.execution = k
+        del L.CALL_LOG[:]
+        o, _ = R.run_free(expr, sched=sched, timeout=90)
+        probe.restore()
+        ran = list(L.CALL_LOG)
+        new = [x for x in execution_ids(base) if x not in known]
+        known.update(new)
+        case = {"program": name, "expr": sx, "execution": k, "async_case": True, "executions": executions}
+        if o not in outs and not has_unk:
+            ctx.violation("C12-wrong-error-raised" if o[0] == "err" else "C12-failure-swallowed",
+                          "run does not raise the error the rules prescribe", case=case, expected=sorted(map(G.show, outs)),
+                          actual=G.show(o))
+        if o[0] == "err":
+            by_leaf = any("%s-%s" % (c[1], c[2]) == o[2] for c in ran)
+            leaf_error = o[2][:2] in ("V-", "K-", "L-", "S-", "Z-", "T-", "B-")
+            if leaf_error and not by_leaf:
+                ctx.violation("C12-failed-call-replayed", "execution %d raises the error of a failed call whose body was not executed in "
+                              "this execution (served from the backend cache)" % k, case=case,
+                              expected="the raising task body runs in every execution", actual="not executed; ran: %r" % (ran,),
+                              kind="history")
+            if len(new) == 1:
+                rows = job_rows(base, new[0])
+                leaves = [jid for jid, r in rows.items() if r[3] in RAISERS and r[1] == "FAILED" and r[2] == o]
+                if leaf_error and not leaves:
+                    ctx.violation("C12-failing-call-has-no-job", "the raising call has no FAILED job row in this execution", case=case,
+                                  expected="a FAILED job of the raising task", actual=sorted((r[3], r[1]) for r in rows.values()),
+                                  kind="history")
+                else:
+                    check_failed_rows(ctx, G, name, sx, k, o, rows, [], [])
+                    for jid in leaves[:1]:
+                        cur = jid
+                        while cur is not None:
+                            r = rows[cur]
+                            if r[1] != "FAILED" or r[2] != o:
+                                ctx.violation("C12-ancestor-not-failed", "an ancestor of the raising job is not recorded FAILED with "
+                                              "the raised error", case=case, expected="FAILED " + G.show(o), actual=repr(r[1:]),
+                                              kind="history")
+                                break
+                            cur = r[0]
+        for rec in probe.log:
+            if rec["served_error"] and rec["was_cached"] and rec.get("ctype") != "cse":
+                ctx.violation("C12-error-replayed-from-backend", "a lookup made a job cached with an ErrorValue that is not a "
+                              "same-execution (CSE) hit", case=dict(case, task=rec["task"]), expected="cse or miss",
+                              actual=rec.get("ctype"), kind="history")
+            if "ctype" in rec and not rec.get("context") and rec["ctype"] != "miss":
+                pending.append((name, sx, ["(getcache %s %s T)" % (rec["ctype"], b(rec["is_err"]))],
+                                [("_get_cache(async run)", rec, "hit" if rec["was_cached"] else "miss")]))
+        ctx.case(key=("async", sx, k) if o[0] == "err" else None, mode="async", outcome1=o[0], execution=k,
+                 leaf_executed=("yes" if ran else "no"),
+                 sample={"program": name, "expr": sx[:200], "execution": k, "outcome": G.show(o)[:120], "bodies_run": ran[:4]})
+
+
 def subrun_corpus():
     from props import _evallib as L
     return {
@@ -530,6 +611,12 @@ def run(ctx):
         if name in SAME_SCHED or (i >= ncorpus and i % 4 == 0):
             run_same_scheduler(ctx, G, R, name, e, sx, rep, rng.getrandbits(30))
     flush_lookups(ctx, pending)
+    # cached async tasks that fail (real executors)
+    asy = [(n, e, G.to_sx(e)) for n, e in async_corpus().items()]
+    areps = ctx.model("C01", ["(eval i%d %s)" % (FUEL, sx) for _, _, sx in asy])
+    for (name, e, sx), rep in zip(asy, areps):
+        run_async(ctx, G, R, name, e, sx, rep, pending, executions=2 if ctx.tier == "quick" else 3)
+    flush_lookups(ctx, pending)
     # failures below a sub-scheduler (file backend, real executors)
     sub = [(n, e, G.to_sx(e)) for n, e in subrun_corpus().items()]
     for i in range(ctx.n(1, 40)):
@@ -563,6 +650,10 @@ def replay(ctx, case):
     rep = ctx.model("C01", ["(eval i%d %s)" % (FUEL, sx2)])[0]
     print("replay program:", sx2[:500])
     print("model outcomes:", rep[:500])
+    if c.get("async_case"):
+        pending = []
+        run_async(ctx, G, R, c.get("program", "replay"), e, sx2, rep, pending, executions=int(c.get("executions", 3)))
+        return flush_lookups(ctx, pending)
     if c.get("subrun"):
         return run_subrun(ctx, G, R, c.get("program", "replay"), e, sx2, rep, ne=bool(c.get("new_execution")),
                           cache=bool(c.get("cache", True)))
